@@ -76,8 +76,13 @@ def zero_order(ctx, P):
     I = P.interp
     core = P.repo.module('core')
     for method in ('central', 'forward', 'complex', 'multicomplex'):
-        obj, x = P.build('Derivative', method, 2, n=0)
-        (der, h, shape), fx = estimates(I, obj, x)
+        try:
+            obj, x = P.build('Derivative', method, 2, n=0)
+            (der, h, shape), fx = estimates(I, obj, x)
+        except InterpRaise as exc:
+            rep.violation('R-ZERO', 'core.Derivative._derivative_zero_order', core.relpath, {'raises': exc.exc_name, 'message': exc.msg[:100]},
+                          'n = 0 does not raise', 'Derivative/%s/n=0' % method, key='zero-order raises')
+            continue
         rich = obj.attrs['richardson']
         rule = I.getattr(rich, 'rule')(1)
         offs = [c[0] for c in P.calls]
@@ -92,9 +97,14 @@ def zero_order(ctx, P):
     obj, x = P.build('Derivative', 'central', 2, n=1)
     seen = {}
     for nn in (0, 2):
-        I.setattr(obj, 'n', nn)
-        del P.calls[:]
-        estimates(I, obj, x)
+        try:
+            I.setattr(obj, 'n', nn)
+            del P.calls[:]
+            estimates(I, obj, x)
+        except InterpRaise as exc:
+            rep.violation('R-ZERO', 'core.Derivative.n (setter)', core.relpath, {'raises': exc.exc_name, 'message': exc.msg[:100]},
+                          'a call after setting n = %d does not raise' % nn, 'Derivative/n setter', key='n-setter raises')
+            return
         seen[nn] = [tuple(repr(p) for p in c[0]) for c in P.calls]
     at_x = [o for o in seen[0] if all(p == '0' for p in o)]
     moved = [o for o in seen[2] if any(p != '0' for p in o)]
